@@ -37,7 +37,10 @@ def build_frame(ctx, collide=None):
     """a frame whose every column/field carries marker values that identify it"""
     rng = ctx.rng
     nests = rng.sample([x for x in NESTS if not (collide == "field_a" and x == "a")], 2)
-    if ctx.tier == "thorough" and rng.random() < 0.3:
+    # every fourth frame (both tiers) has a nested column whose own name contains a dot
+    k_frame = getattr(ctx, "_names_frames", 0)
+    ctx._names_frames = k_frame + 1
+    if k_frame % 4 == 3 or (ctx.tier == "thorough" and rng.random() < 0.2):
         nests[0] = rng.choice(DOTTED)
     n_rows = 3
     lens = [2, 0, 3]
